@@ -366,7 +366,8 @@ Definition step (rec : mode -> st -> res) (m : mode) (s : st) : res :=
                    match cur s2 with
                    | SComma | SRp | SSemi => Ok (ENew n []) s2
                    | SBin OLt => Unsup
-                   | _ => bind (rec (Args []) (if is_lp (cur s2) then next s2 else s2)) (fun a s3 => Ok (ENew n (as_list a)) s3)
+                   | SLp => bind (rec (Args []) (next s2)) (fun a s3 => Ok (ENew n (as_list a)) s3)
+                   | _ => err s2                                  (* parseFunctionCall: nextAndCheck(LPAREN) *)
                    end
                | SAtom (AVar _) | SLp | SKw _ | SOther => Unsup
                | _ => err s1
@@ -391,6 +392,7 @@ Definition step (rec : mode -> st -> res) (m : mode) (s : st) : res :=
                    let s2 := next s1 in
                    let s3 := if is_lp (cur s2) then next s2 else s2 in
                    nil_err (rec Stmt s3) (fun cnd s4 =>
+                     if is_lp (cur s2) && negb (is_rp (cur s4)) then err s4 else
                      let s5 := if is_rp (cur s4) then next s4 else s4 in
                      let s6 := if is_semi (cur s5) then next s5 else s5 in
                      Ok (SDoWhile cnd (as_list b)) s6)
@@ -405,7 +407,8 @@ Definition step (rec : mode -> st -> res) (m : mode) (s : st) : res :=
                  (* condition *)
                  let after_cond (cnd : ast) (s4 : st) : res :=
                    let finish (incs : list ast) (s5 : st) : res :=
-                     let s7 := if haslp && is_rp (cur s5) then next s5 else s5 in   (* nextAndCheck(RPAREN) discarded *)
+                     if haslp && negb (is_rp (cur s5)) then err s5 else              (* nextAndCheck(RPAREN) *)
+                     let s7 := if haslp then next s5 else s5 in
                      bind (rec Block s7) (fun b s8 => Ok (SFor inits cnd incs (as_list b)) s8) in
                    if is_semi (cur s4) then finish [] (next s4)
                    else if is_lbrace (cur s4) || is_rp (cur s4) then finish [] s4
@@ -447,7 +450,7 @@ Definition step (rec : mode -> st -> res) (m : mode) (s : st) : res :=
                    bind (rec Stmt (next s1)) (fun cnd s2 => if is_rp (cur s2) then Ok cnd (next s2) else err s2)
                  else rec Stmt s1 in
                nil_err cond (fun cnd s2 =>
-                 rec (SwitchLoop cnd [] []) (if is_lbrace (cur s2) then next s2 else s2)))
+                 if is_lbrace (cur s2) then rec (SwitchLoop cnd [] []) (next s2) else err s2))   (* nextAndCheck(LBRACE) *)
         | SKw KBreak =>
             postfix c
               (let s1 := next s in
@@ -548,7 +551,7 @@ Definition step (rec : mode -> st -> res) (m : mode) (s : st) : res :=
     if is_lbrace (cur s) then rec (BlockLoop []) (skip_semis_all (next s))
     else bind (rec Stmt s) (fun v s1 => Ok (EList (match v with ENil => [] | _ => [v] end)) s1)
   | BlockLoop acc =>
-    if is_eof s then Ok (EList (rev acc)) s                  (* nextAndCheck(RBRACE) result discarded *)
+    if is_eof s then err s                                   (* nextAndCheck(RBRACE) *)
     else if is_rbrace (cur s) then Ok (EList (rev acc)) (next s)
     else bind (rec Stmt s) (fun v s1 =>
            let s2 := skip_semis_all s1 in
@@ -566,7 +569,7 @@ Definition step (rec : mode -> st -> res) (m : mode) (s : st) : res :=
            | SOther => Unsup
            | _ => nil_err (rec Stmt s1) (fun v s2 => rec (ArrSkip (v :: acc)) s2)
            end
-    else Ok (EArray (rev acc)) (if is_rb (cur s) then next s else s)
+    else if is_rb (cur s) then Ok (EArray (rev acc)) (next s) else err s
   | ArrAfterComma acc =>
     if is_comma (cur s) then
       let s1 := next s in
@@ -580,7 +583,7 @@ Definition step (rec : mode -> st -> res) (m : mode) (s : st) : res :=
                    rec (KvLoopComma ((v, w) :: rev (index_pairs 0 (rev acc)))) (if is_comma (cur s3) then next s3 else s3))
                else rec (ArrAfterComma (v :: acc)) s2)
            end
-    else Ok (EArray (rev acc)) (if is_rb (cur s) then next s else s)
+    else if is_rb (cur s) then Ok (EArray (rev acc)) (next s) else err s
   | KvLoopComma acc =>
     if is_rb (cur s) then kv_ret (rev acc) (next s)
     else if is_eof s then err s                           (* the loop can only be ended by the guard *)
@@ -605,8 +608,8 @@ Definition step (rec : mode -> st -> res) (m : mode) (s : st) : res :=
     else if is_comma (cur s) && is_rbrace (peek s 1) then kv_ret (rev acc) (next (next s))
     else if is_eof s then err s
     else
-      let s1 := next s in                                  (* nextAndCheck(COMMA), result discarded *)
-      let s1 := if is_comma (cur s) then s1 else s in
+      if negb (is_comma (cur s)) then err s else           (* nextAndCheck(COMMA) *)
+      let s1 := next s in
       let key :=
         if is_colon (peek s1 1) then
           match cur s1 with
@@ -616,7 +619,8 @@ Definition step (rec : mode -> st -> res) (m : mode) (s : st) : res :=
           end
         else rec Stmt s1 in
       bind key (fun k s2 =>
-        let s3 := if is_colon (cur s2) then next s2 else s2 in   (* nextAndCheck(COLON), result discarded *)
+        if negb (is_colon (cur s2)) then err s2 else         (* nextAndCheck(COLON) *)
+        let s3 := next s2 in
         bind (rec Stmt s3) (fun v s4 =>
           if pos s4 =? pos s then err s4 else rec (JsonLoop ((k, v) :: acc)) s4))
   (* ------------------------------------------------------------------ statements *)
@@ -650,10 +654,11 @@ Definition step (rec : mode -> st -> res) (m : mode) (s : st) : res :=
     else Ok (EList (rev acc)) s
   | SwitchLoop cnd cases def =>
     if is_rbrace (cur s) then Ok (SSwitch cnd (rev cases) def) (next s)
-    else if is_eof s then Ok (SSwitch cnd (rev cases) def) s         (* nextAndCheck(RBRACE) discarded *)
+    else if is_eof s then err s                                      (* nextAndCheck(RBRACE) *)
     else if is_kw KDefault (cur s) then
       let s1 := next s in
-      let s2 := if is_colon (cur s1) then next s1 else s1 in           (* nextAndCheck(COLON) discarded *)
+      if negb (is_colon (cur s1)) then err s1 else                     (* nextAndCheck(COLON) *)
+      let s2 := next s1 in
       bind (rec (CaseBody true []) s2) (fun b s3 => rec (SwitchLoop cnd cases (as_list b)) s3)
     else if is_kw KCase (cur s) then
       nil_err (rec Stmt (next s)) (fun v s1 =>
